@@ -8,7 +8,7 @@
    written from the dialects' grammars) after the statement head; and in parameterised mode the values enter the parameter list in the
    order of their placeholders. *)
 From PT Require Import Base.Str Model.Types Model.Value Model.Interval Model.Syntax Gen.Ctx Gen.Enums Gen.Prec Gen.Placeholders Model.Render
-     Ref.Lexer Ref.RowLimit.
+     Ref.Lexer Ref.RowLimit Proofs.QueryEq Proofs.PaginationAll.
 Open Scope N_scope.
 
 Definition tbl : term := TTable (MkTRef true (L "t") [] None 0) NoT NoT.
@@ -85,6 +85,20 @@ Theorem C09_setop : forall cls lim off ob,
   Ok (setop_head cls ob ++ ref_pagination (setop_cls cls) (option_map Z_to_str lim) (option_map Z_to_str off) ob, None).
 Proof. intros cls lim off ob. destruct cls, lim as [l|], off as [o|], ob; norm. Qed.
 Print Assumptions C09_setop.
+
+(* EVERY statement of the model - any clauses, any limit / offset TERMS (constants, placeholders, expressions), any context and
+   parameterizer state: its row-limiting clause is the reference clause applied to what the limit and offset terms render to, the two
+   rendered in the order of their slots (so that, with a parameterizer, values enter the list in the order of their placeholders) *)
+Theorem C09_every_statement : forall (q : query) (c : ctx) (p : pz),
+  pagination the_rens q c p =
+    if offset_slot_first (q_cls q) then
+      do (oo, p1) <- render_o c p (q_off q); do (ol, p2) <- render_o c p1 (q_lim q);
+      Ok (ref_pagination (q_cls q) ol oo (has_order q), p2)
+    else
+      do (ol, p1) <- render_o c p (q_lim q); do (oo, p2) <- render_o c p1 (q_off q);
+      Ok (ref_pagination (q_cls q) ol oo (has_order q), p2).
+Proof. exact pagination_is_reference. Qed.
+Print Assumptions C09_every_statement.
 
 (* the recogniser reads the reference printer's clause back (sampled by computation; digits are arbitrary above) *)
 Example C09_recogniser_reads_printer :
